@@ -327,6 +327,27 @@ theorem limits_after_reset_aswritten_partial (s : Pool) (v : View) (o n : Nat) (
 theorem limits_after_enforcement (s : Pool) (slots qorder : List Addr) (h : Good s) (ha : AllOK s) :
     Limits (s.promoteExecutables none slots qorder) := (limits_after_promote s slots qorder ⟨h, ha⟩).1
 
+/-- A successful AddLocal/AddRemote that is not a replacement ends with the enforcement for the sender and pool-wide:
+    afterwards the sender's queue cap (if it is not local) and both pool-wide limits hold, for every eviction oracle. -/
+theorem limits_after_add (s : Pool) (t : Tx) (loc : Bool) (sh : Shape) (vs : List Tx) (sl qo : List Addr)
+    (h : Good s) (ha : AllOK s)
+    (hok : (s.add t (loc && !s.cfg.noLocals) sh vs).1 = .ok) (hnew : (s.add t (loc && !s.cfg.noLocals) sh vs).2.1 = false) :
+    let s' := (s.addTx t loc sh vs sl qo).2
+    (t.sender ∉ s'.locals → (s'.queue t.sender).items.length ≤ s'.cfg.accountQueue) ∧
+    sumLen s'.queue (s'.accts.filter (fun a => !s'.isLocal a)) ≤ s'.cfg.globalQueue ∧
+    (s'.pendingCount ≤ s'.cfg.globalSlots ∨ ∀ a, a ∉ s'.locals → (s'.pending a).items.length ≤ s'.cfg.accountSlots) := by
+  have hga : GA (s.add t (loc && !s.cfg.noLocals) sh vs).2.2 := add_pres addClosed_ga s t _ sh vs ⟨h, ha⟩
+  unfold Pool.addTx
+  simp only
+  generalize s.add t (loc && !s.cfg.noLocals) sh vs = r at hok hnew hga ⊢
+  rw [if_neg (fun hc => hc hok), hnew]
+  simp only [Bool.not_false, if_true]
+  have := limits_after_promote_some r.2.2 [t.sender] sl qo hga
+  exact ⟨this.1 t.sender List.mem_cons_self, this.2.1, this.2.2.1⟩
+
+example : ((Pool.init wCfg wView0).add ⟨0,0,5,21000,100⟩ false .wellformed []).1 = .ok ∧
+    ((Pool.init wCfg wView0).add ⟨0,0,5,21000,100⟩ false .wellformed []).2.1 = false := by decide
+
 def lCfg : Cfg := ⟨1, 10, 16, 4096, 1, 1024, false, 21000⟩
 /-- AccountQueue = 1; three pending transactions; SetGasPrice evicts the first: the two followers are re-queued -/
 def l1 : Pool := ((Pool.init lCfg wView0).step false (.adds [⟨0,0,1,21000,100⟩, ⟨0,1,5,21000,100⟩, ⟨0,2,5,21000,100⟩] false [] [] [])).step false (.setGasPrice 3)
